@@ -43,7 +43,15 @@ impl RHistory {
             core::fnv(&mut h, e.k.tag().as_bytes());
             core::fnv(&mut h, &e.at.to_le_bytes());
         }
-        core::fnv(&mut h, self.output.as_bytes());
+        // junit-report stamps the "Errors" suites with the real clock (inside the dependency, no seam):
+        // mask every timestamp attribute so that digests stay a function of the seed
+        let mut rest = self.output.as_str();
+        while let Some(i) = rest.find("timestamp=\"") {
+            core::fnv(&mut h, rest[..i].as_bytes());
+            let tail = &rest[i + 11..];
+            rest = tail.find('"').map_or("", |j| &tail[j + 1..]);
+        }
+        core::fnv(&mut h, rest.as_bytes());
         core::fnv(&mut h, &self.sched_digest.to_le_bytes());
         h
     }
